@@ -26,7 +26,10 @@ RULE = ("the C01 graph generator plus graphs with undefined (None) annotations (
         "Output(None), Input(None)) which only the dictionary form can carry; checks: from_dict(to_dict(g)) equivalent "
         "with identical Python value types; to_dict() contains only dict/str/number/tuple/list/ndarray under documented "
         "keys + 'type'; alias matrix between all mutable objects of g and of g.to_dict() (is / np.shares_memory) and "
-        "mutate-and-compare in both directions on deep snapshots. distinct = recipe; non-trivial = has metadata, "
+        "mutate-and-compare in both directions on deep snapshots; plus object-identity cases (Model/Alias.v): the real graph is turned "
+        "into an obj term (identities = first-occurrence numbers of id() / of the owner of each array's memory) and the sharing "
+        "pattern observed on (g, g.to_dict()) and on two nir.read results of one file must equal the pattern the identity model "
+        "computes (graphs with shared arrays, views and aliased nodes included). distinct = recipe; non-trivial = has metadata, "
         "a nested graph or an undefined annotation")
 ASSUMPTIONS = ["'the graph' is g itself: from_dict consuming (mutating) the dictionary it is given is not part of the claim"]
 
